@@ -31,7 +31,15 @@ Definition obs := (nat * nat * nat)%type.      (* registry-view id, numpy state 
          4 generate(finite, sampled) as interference),
    (argument id, gate_lo, wire_lo), seed, observed before, observed after, result id *)
 Definition evt := (nat * (nat * bool * bool) * option Z * obs * obs * nat)%type.
-Definition hcase := (list (nat * reg_view) * list evt * list evt)%type.
+(* per generation argument id: the coefficient lists of the bases of its cut gates (exact values of the binary64
+   coefficients) and num_samples (None = inf) *)
+Definition ginfo := list (nat * (list (list Q) * option Q)).
+Definition hcase := (list (nat * reg_view) * list evt * list evt * ginfo)%type.
+
+Definition ginfo_get (gi : ginfo) (a : nat) : list (list Q) * option Q :=
+  match find (fun p => Nat.eqb (fst p) a) gi with Some p => snd p | None => ([], None) end.
+Definition ns_of (gi : ginfo) (a : nat) : nsamples :=
+  match snd (ginfo_get gi a) with None => NInf | Some n => NFin n end.
 
 Definition ev_key (e : evt) : nat * nat * option Z :=
   let '(k, a, s, _, _, _) := e in (k, fst (fst a), s).
@@ -44,13 +52,16 @@ Definition lookup_rid (fresh : list evt) (k a : nat) (s : option Z) : nat :=
   | None => 4999
   end.
 
-(* tape = the integer seed (O-rng); None = OS entropy, about which nothing is predicted *)
-Definition O_of (fresh : list evt) : oracles :=
+(* tape = the integer seed (O-rng); None = OS entropy, about which nothing is predicted.
+   Generation: the REAL coefficient lists go into ge_coeffs, so reaches_sampler (prod_min_nonzero, min_filter_nonzero,
+   threshold, ns_valid, the rounding margin) is evaluated on what the implementation worked with; outside the region
+   where the model is certain of the all-exact branch the worst case "samples" is assumed. *)
+Definition O_of (fresh : list evt) (gi : ginfo) : oracles :=
   mkO (nat * bool * bool) nat nat (option Z) nat nat nat
       (fun z => Some z)
       (fun a => snd (fst a)) (fun a => snd a)
       (fun _ _ _ a t => lookup_rid fresh 0 (fst (fst a)) t)
-      (fun _ => []) (fun _ _ => false) (fun s _ _ => s)     (* no bases: smallest probability 1, every valid num_samples is all-exact *)
+      (fun a => fst (ginfo_get gi a)) (fun _ _ => true) (fun s _ _ => s)
       (fun _ a ns => lookup_rid fresh (match ns with NInf => 1 | NFin _ => 5 end) a None)
       (fun _ _ _ _ => 4999)
       (fun _ a => lookup_rid fresh 2 a None).
@@ -65,8 +76,8 @@ Definition obs_matches (views : list (nat * reg_view)) (o : obs) (g : gstate) : 
 Definition result_id (O : oracles) (f : res_fc O -> nat) (g : res_ge O -> nat) (h : res_fi O -> nat) (r : result O) : nat :=
   match r with RFind _ x => f x | RGen _ x => g x | RBasis _ x => h x end.
 
-Fixpoint walk (views : list (nat * reg_view)) (fresh : list evt) (g : gstate) (evs : list evt) : bool :=
-  let O := O_of fresh in
+Fixpoint walk (views : list (nat * reg_view)) (fresh : list evt) (gi : ginfo) (g : gstate) (evs : list evt) : bool :=
+  let O := O_of fresh gi in
   match evs with
   | [] => true
   | (kind, a, seed, before, after, rid) :: r =>
@@ -80,7 +91,7 @@ Fixpoint walk (views : list (nat * reg_view)) (fresh : list evt) (g : gstate) (e
             match kind with
             | 0 => FindCuts O a (match seed with Some z => Seeded z | None => Unseeded None end)
             | 1 => GenExact O (fst (fst a))
-            | 5 => Gen O (fst (fst a)) (NFin 1)      (* the argument id identifies num_samples; the instance is all-exact *)
+            | 5 => Gen O (fst (fst a)) (ns_of gi (fst (fst a)))   (* the model must find it certainly all-exact / refused *)
             | _ => FromInstruction O (fst (fst a))
             end in
           let gr := step O g1 c in
@@ -89,24 +100,49 @@ Fixpoint walk (views : list (nat * reg_view)) (fresh : list evt) (g : gstate) (e
            | 0, None => true                               (* unseeded find_cuts: no prediction about the result *)
            | _, _ => Nat.eqb (result_id O (fun x => x) (fun x => x) (fun x => x) (snd gr)) rid
            end) &&
-          walk views fresh (fst gr) r
+          walk views fresh gi (fst gr) r
       | 4 =>
           (* finite num_samples: the model lets numpy's global state move (np_advance is an oracle) and nothing else *)
           let '(_, npa, _) := after in
           let g2 := estep O g1 (Perturb npa (py_global g1)) in
-          obs_matches views after g2 && walk views fresh g2 r
+          (* if numpy's state moved, the model must not have classified the call as certainly all-exact *)
+          (Nat.eqb npa (np_global g1) || reaches_sampler O (fst (fst a)) (ns_of gi (fst (fst a)))) &&
+          obs_matches views after g2 && walk views fresh gi g2 r
       | _ => false
       end
   end.
 
 Definition chk_history (c : hcase) : bool :=
-  let '(views, fresh, evs) := c in
+  let '(views, fresh, evs, gi) := c in
   match import_actions with
   | Ok an =>
       let g0 := fresh_process an import_basis 0 0 in
-      walk views fresh g0 evs && forallb (fun e => walk views fresh g0 [e]) fresh
+      walk views fresh gi g0 evs && forallb (fun e => walk views fresh gi g0 [e]) fresh
   | _ => false
   end.
+
+(* ---------- generate_qpd_weights: which branch, and does numpy's global state move ---------- *)
+Definition O_w (coeffs : list (list Q)) : oracles :=
+  mkO nat unit nat nat nat nat nat (fun z => Z.to_nat z) (fun _ => true) (fun _ => true) (fun _ _ _ a t => a + t)
+      (fun _ => coeffs) (fun _ _ => true) (fun s _ _ => S s) (fun _ _ _ => 0) (fun _ _ _ s => s) (fun _ a => a).
+
+(* (coefficient lists, num_samples | None = inf, numpy state moved, branch: 0 "All exact weights", 1 below it, 2 ValueError) *)
+Definition chk_weights (c : list (list Q) * option Q * bool * nat) : bool :=
+  let '(coeffs, ns, moved, branch) := c in
+  let nsv := match ns with None => NInf | Some n => NFin n end in
+  let d := reaches_sampler (O_w coeffs) tt nsv in
+  let certainly_below :=
+    match prod_min_nonzero coeffs with
+    | Some p => ns_valid nsv && negb (Qle_bool (threshold nsv) (p * (1 + float_margin))%Q)
+    | None => false
+    end in
+  (* model certain of "no sampling" (all-exact / refused) => nothing moved and the tail was not entered *)
+  (if d then true else negb moved && negb (Nat.eqb branch 1)) &&
+  (* threshold certainly above the smallest probability => the all-exact branch was not taken *)
+  (if certainly_below then Nat.eqb branch 1 else true) &&
+  (* num_samples < 1 <=> ValueError before anything else; no non-zero probability => ValueError too *)
+  (if negb (ns_valid nsv) then Nat.eqb branch 2 else true) &&
+  (match prod_min_nonzero coeffs with None => Nat.eqb branch 2 | Some _ => true end).
 
 (* ---------- ActionNames.copy on the real registry ---------- *)
 Definition chk_copy (c : option (bool * bool) * option (list gname) * option (list gname) * res an_v) : bool :=
